@@ -1,7 +1,8 @@
 #!/bin/bash
+VROOT="$(cd "$(dirname "${BASH_SOURCE[0]}")/.." && pwd)"
 # runs every seeded change against the check of its property (and extra checks given in seeded/<id>/also.txt),
 # in a scratch worktree of /repo (removed afterwards); /repo itself is not touched
-cd /verif
+cd "$VROOT"
 wt=$(mktemp -d /tmp/matrix-XXXXXX); rmdir $wt
 git -C /repo worktree add -q --detach $wt HEAD || exit 2
 trap 'git -C /repo worktree remove --force $wt 2>/dev/null; rm -rf $wt' EXIT
